@@ -89,8 +89,8 @@ def r19_1(run):
             try:
                 k = _eval_method(ix, ci, "get_at_integral_value", consts)
             except Unsupported as e:
-                run.ob("%s|%s|analysable" % (ci.name, tag), False, "the integral method is in the supported expression forms", w, detail=str(e))
-                continue
+                # a shape the evaluator cannot read is no verdict on the property (it used to be reported as a violation)
+                raise AnalysisError("unrecognised shape: %s.get_at_integral_value (%s): %s" % (ci.name, tag, str(e)[:160]))
             val = tonum(k.outputs[0]).plain()
             if val is None:
                 raise AnalysisError("guarded integral in %s" % ci.name)
@@ -721,5 +721,121 @@ def r19_9(run):
     run.floor(8)
 
 
-RULES = [("R19.8", r19_8), ("R19.7", r19_7), ("R19.1", r19_1), ("R19.2", r19_2), ("R19.3", r19_3), ("R19.4", r19_4), ("R19.5", r19_5), ("R19.9", r19_9)]
+
+SERIES_TYPES = (("x", "pandas.Series"), ("x", "pandas.core.series.Series"))
+TO_ARRAY_CALLS = ("numpy.array", "numpy.asarray", "numpy.asanyarray", "numpy.ascontiguousarray", "numpy.float64", "builtins.float",
+                  "builtins.list", "builtins.tuple", "numpy.atleast_1d")
+TO_ARRAY_ATTRS = ("values", "to_numpy", "array", "tolist", "to_list", "item", "size", "shape", "dtype", "index")
+
+
+def series_mixing(ix, f):
+    """(parameters the function tests with isinstance(.., pd.Series), [(node, term, roots)] binary operations whose operands may
+    still be pandas Series of two *different* parameters).  pandas aligns such an operation by index label, not by position."""
+    from ..arrnf import ANF, key as tkey, norm_cond, walk
+    r = ANF(ix, f, strip=False).run()
+    allt = []
+    for e in r.events:
+        for t in (getattr(e, "term", None), getattr(e, "value", None)):
+            if isinstance(t, tuple):
+                allt.append((e, t))
+        for c, _p in e.cond:
+            if isinstance(c, tuple):
+                allt.append((e, c))
+    params = set(f.params())
+    sp = set()
+
+    def is_test(x):
+        return x[0] == "call" and x[1] == ("x", "builtins.isinstance") and len(x[2]) == 2 and (
+            x[2][1] in SERIES_TYPES or (x[2][1][0] == "tuple" and any(y in SERIES_TYPES for y in x[2][1][1])))
+    for _e, t in allt:
+        for x in walk(t):
+            if isinstance(x, tuple) and x and is_test(x) and x[2][0][0] == "n" and x[2][0][1] in params:
+                sp.add(x[2][0][1])
+    bad = []
+    seen = set()
+
+    def roots(t, facts, e):
+        if not isinstance(t, tuple) or not t:
+            return frozenset()
+        h = t[0]
+        if h == "n":
+            if t[1] in sp and facts.get(tkey(("call", ("x", "builtins.isinstance"), (t, SERIES_TYPES[0]), ()))) is not False:
+                return frozenset([t[1]])
+            return frozenset()
+        if h == "ite" and len(t) == 4:
+            c, pol = norm_cond(t[1], True)
+            fa, fb = dict(facts), dict(facts)
+            fa[tkey(c)], fb[tkey(c)] = pol, not pol
+            return roots(t[2], fa, e) | roots(t[3], fb, e)
+        if h == "attr":
+            return frozenset() if t[2] in TO_ARRAY_ATTRS else roots(t[1], facts, e)
+        if h == "upd":
+            return roots(t[1], facts, e)
+        if h == "idx":
+            return roots(t[1], facts, e)
+        if h == "call":
+            fn = t[1]
+            if fn[0] == "x" and fn[1] in TO_ARRAY_CALLS:
+                return frozenset()
+            if fn[0] == "attr":
+                return frozenset() if fn[2] in TO_ARRAY_ATTRS else roots(fn[1], facts, e)
+            if fn[0] == "x" and fn[1].startswith("numpy."):
+                rs = [roots(a, facts, e) for a in t[2]]
+                return combine(t, rs, e)
+            return frozenset()
+        if h in ("opn", "op", "cmp"):
+            ops = t[2] if h == "opn" else t[2:4]
+            rs = [roots(a, facts, e) for a in ops]
+            return combine(t, rs, e)
+        if h == "u":
+            return roots(t[2], facts, e)
+        return frozenset()
+
+    def combine(t, rs, e):
+        u = frozenset().union(*rs) if rs else frozenset()
+        nonempty = [x for x in rs if x]
+        if len(nonempty) >= 2 and len(u) >= 2 and tkey(t) not in seen:
+            seen.add(tkey(t))
+            bad.append((e.node, t, sorted(u)))
+        return u
+    for e, t in allt:
+        facts = {}
+        for c, p_ in e.cond:
+            c2, p2 = norm_cond(c, p_)
+            facts[tkey(c2)] = p2
+        roots(t, facts, e)
+    return sp, bad
+
+
+def r19_10(run):
+    """the property functions answer element by element: the i-th result belongs to the i-th query value.  Where a method accepts
+    pandas Series (it tests its arguments with isinstance(.., pd.Series)), values that may still be Series of two different
+    arguments never meet in an arithmetic operation or comparison -- pandas would pair them by index label (wrong pairs for
+    permuted labels, NaN and a longer result for disjoint ones); every such argument is turned into an array (.values, np.array,
+    to_numpy) before it is combined with another one."""
+    from ..arrnf import show as tshow
+    ix = run.index
+    funcs = []
+    for ci in _classes(ix) + [c for c in ix.module(ST).classes.values()]:
+        funcs.extend(m for m in ci.methods.values() if not m.name.startswith("__"))
+    funcs.extend(ix.module(PT).functions.values())
+    n = 0
+    for f in funcs:
+        try:
+            sp, bad = series_mixing(ix, f)
+        except AnalysisError:
+            continue
+        if not sp:
+            continue
+        n += 1
+        run.analysed(f)
+        run.ob("%s|series-arguments-combined-by-position" % f.short, not bad,
+               "%s takes pandas Series for %s; values of different arguments meet only as arrays" % (f.short, ", ".join(sorted(sp))),
+               run.where(f, bad[0][0] if bad else f.node),
+               detail="; ".join("%s mixes Series of %s" % (tshow(t)[:80], "/".join(u)) for _n, t, u in bad[:2]) if bad else None)
+    run.stat("functions_testing_for_series_arguments", n)
+    run.floor(3)
+
+
+RULES = [("R19.8", r19_8), ("R19.7", r19_7), ("R19.1", r19_1), ("R19.2", r19_2), ("R19.3", r19_3), ("R19.4", r19_4), ("R19.5", r19_5), ("R19.9", r19_9), ("R19.10", r19_10)]
 THOROUGH = [("R19.6", r19_6)]
